@@ -93,7 +93,7 @@ func (e *Engine) isObservedExternalHeight(v ssa.Value) (bool, string) {
 }
 
 func runC06(e *Engine, r *Report, tier string) {
-	r.Explanation = "C06, structural clauses. Decided: R1 the functions that release outgoing value for timeout are called only from the function that records a newly observed external height (writer of 0x32), after that write; R2 each release decision compares the record's own timeout field with the ExternalBlockHeight read from 0x32 — never the local block height/time or the projected height — and releases only on `timeout < observed` or `timeout <= observed`; R3 this is consistent with every `require(block.number < timeout)` in solidity/contracts/bridge/FxBridgeLogic*.sol; R4 batch / bridge-call creation is dominated by `timeout > 0` where timeout is the projecting function's result and that function returns 0 when no external height was observed; R5 the batch-cancel routine is called only from timeout cleanup and from the executed-batch handler; R6 the external height an observed event carries is covered by the claim hash of every claim type, i.e. it is the height a quorum agreed on (decided as C03.R1); R7 if a parked claim kind settles an outgoing record only when it is executed, the timeout sweep of that record family is guarded by a lookup among the parked claims (0x54), so that an observed result excludes the timeout refund. Not decided: projected-height arithmetic, joint behaviour with event ordering."
+	r.Explanation = "C06, structural clauses. Decided: R1 the functions that release outgoing value for timeout are called only from the function that records a newly observed external height (writer of 0x32), after that write; R2 each release decision compares the record's own timeout field with the ExternalBlockHeight read from 0x32 — never the local block height/time or the projected height — and releases only on `timeout < observed` or `timeout <= observed`; R3 this is consistent with every `require(block.number < timeout)` in solidity/contracts/bridge/FxBridgeLogic*.sol; R4 batch / bridge-call creation is dominated by `timeout > 0` where timeout is the projecting function's result and that function returns 0 when no external height was observed; R5 the batch-cancel routine is called only from timeout cleanup and from the executed-batch handler; R6 the external height an observed event carries is covered by the claim hash of every claim type, i.e. it is the height a quorum agreed on (decided as C03.R1); R7 if a parked claim kind settles an outgoing record only when it is executed, the timeout sweep of that record family is guarded by a lookup among the parked claims (0x54), so that an observed result excludes the timeout refund; R8 events are tallied only for the nonce right after the last observed one (decided as C01.R1), so the event that settles a record is applied before a later event can move the observed height past that record's timeout. Not decided: projected-height arithmetic."
 	r.Trusted = []string{"go/ssa dominance", "purpose-built scanner for `require(block.number <op> <timeout>)` in Solidity"}
 	r.Rule("R1", "timeout cleanup is called only right after an external height is recorded (0x32 write dominates the call)", 2, "cleanup functions found by R2")
 	r.Rule("R2", "release decision: record timeout vs observed external height (0x32), direction timeout<=observed", 2, "comparisons on OutgoingTxBatch.BatchTimeout / OutgoingBridgeCall.Timeout guarding effects")
@@ -102,6 +102,16 @@ func runC06(e *Engine, r *Report, tier string) {
 	r.Rule("R5", "batch cancel reachable only from timeout cleanup and executed-batch handler", 1, "callers of the function that re-adds batch txs to the pool")
 	r.Rule("R7", "a record whose observed result is parked is not released by the timeout sweep", 1, "families settled at execution of a parked claim")
 	r.Rule("R6", "the external height recorded as observed is part of what the quorum voted on (claim hash covers BlockHeight; decided as C03.R1)", 6, "ExternalClaim implementers")
+	r.Rule("R8", "events are applied in event-nonce order without gaps: the settling event of a record is processed before any later event can move the observed height past its timeout (C01.R1)", 1, "C01 obligations")
+	{
+		sub01 := NewReport("C01", "other")
+		runC01(e, sub01, tier)
+		for _, o := range sub01.Obls {
+			if o.Rule == "R1" {
+				r.add("R8", "C01.R1 "+o.Construct, o.Status, o.Pos, o.Detail)
+			}
+		}
+	}
 	{
 		sub := NewReport("C03", "other")
 		runC03(e, sub, tier)
